@@ -222,6 +222,9 @@ def _agnostic(ck, fx, cg):
     # only self-containing values fail): C15's renderer rules
     from . import shared as _sh
     _sh.presuppose(ck, fx, cg, "C15", lambda o: o["rule"] == "R15.render", "R5.op", "Print|values are rendered as documented (C15 renderer rules)", floor=3)
+    # … and the format itself is scanned as the instruction's documentation says (placeholders, escapes, text verbatim
+    # — for every format string, not only those the compiler's front end lets through)
+    _sh.presuppose(ck, fx, cg, "C15", lambda o: o["rule"].startswith("R15.fsm"), "R5.op", "Print|the format is scanned as documented (C15 scanner rules)", floor=10)
 
 
 def _call_object_method(ck, fx):
